@@ -1,8 +1,8 @@
 (** C02 obligation: renderings of different documents never parse alike *)
-From OfxV Require Import Base.Prelude Base.SgmlBase Model.Sgml Model.SgmlSpec Proofs.SgmlNest Proofs.SgmlScan Proofs.SgmlFaithful Proofs.SgmlReject.
+From OfxV Require Import Base.Prelude Base.SgmlBase Model.Sgml Model.SgmlSpec Proofs.SgmlNest Proofs.SgmlScan Proofs.SgmlFaithful Proofs.SgmlReject Proofs.SgmlCfg.
 Local Open Scope N_scope.
-Theorem renderings_distinguish_documents : forall d1 d2 ws1 r1 ws2 r2,
+Theorem renderings_distinguish_documents : forall g d1 d2 ws1 r1 ws2 r2, cdata_lazy g = true ->
   wf_doc d1 = true -> wf_doc d2 = true -> ok_rendering ws1 r1 d1 -> ok_rendering ws2 r2 d2 ->
-  parse repaired (render ws1 r1) = parse repaired (render ws2 r2) -> d1 = d2.
-Proof. exact same_tree_same_doc_l. Qed.
+  parse g (render ws1 r1) = parse g (render ws2 r2) -> d1 = d2.
+Proof. exact same_tree_same_doc_g. Qed.
 Print Assumptions renderings_distinguish_documents.
